@@ -427,6 +427,87 @@ pub fn check_case(ctx: &mut Ctx, c: &Case, base: &Baseline, source: &str) {
     }
 }
 
+/// (f) for a *reused* compiler parser: after each `parse_*` call on one `Parser` value the figures are
+/// those of that call (the parser's high-water marks for that text), not of an earlier one.
+pub fn check_session(ctx: &mut Ctx, texts: &[String], n: Option<usize>, r: Option<usize>, source: &str) {
+    ctx.eval();
+    let case = json!({"session": texts, "token_limit": n, "recursion_limit": r});
+    ctx.inflight("C04", case.to_string().as_bytes());
+    let res = rt::catch(|| {
+        let mut cp = apollo_compiler::parser::Parser::new();
+        if let Some(n) = n {
+            cp = cp.token_limit(n);
+        }
+        if let Some(r) = r {
+            cp = cp.recursion_limit(r);
+        }
+        let mut out = Vec::new();
+        for (i, t) in texts.iter().enumerate() {
+            let mut p = Parser::new(t);
+            if let Some(n) = n {
+                p = p.token_limit(n);
+            }
+            if let Some(r) = r {
+                p = p.recursion_limit(r);
+            }
+            let (entry, rec_high, tok_high) = match i % 3 {
+                0 => {
+                    let tree = p.parse();
+                    let _ = cp.parse_ast(t.as_str(), "c04-session.graphql");
+                    ("parse_ast", tree.recursion_limit().high, tree.token_limit().high)
+                }
+                1 => {
+                    let tree = p.parse();
+                    let _ = cp.parse_schema(t.as_str(), "c04-session.graphql");
+                    ("parse_schema", tree.recursion_limit().high, tree.token_limit().high)
+                }
+                _ => {
+                    let tree = p.parse_type();
+                    let _ = cp.parse_type(t.as_str(), "c04-session.graphql");
+                    ("parse_type", tree.recursion_limit().high, tree.token_limit().high)
+                }
+            };
+            out.push((i, entry, rec_high, tok_high, cp.recursion_reached(), cp.tokens_reached()));
+        }
+        out
+    });
+    match res {
+        Err(p) => ctx.violation(p.signature("c04-session"), format!("panic: {} at {}:{}", p.message, p.file, p.line), case),
+        Ok(out) => {
+            ctx.count("clause_f_session_calls", out.len() as u64);
+            let mut marks: Vec<(usize, usize)> = Vec::new();
+            for (i, entry, rec_high, tok_high, c_rec, c_tok) in out {
+                marks.push((rec_high, tok_high));
+                if c_rec != rec_high {
+                    ctx.violation(
+                        "f|reused parser|recursion_reached differs from the tree's recursion high-water mark",
+                        format!("call {i} ({entry}) on a reused apollo_compiler Parser: recursion_reached = {c_rec}, apollo_parser recursion_limit().high for this text = {rec_high}"),
+                        case.clone(),
+                    );
+                }
+                if c_tok != tok_high {
+                    ctx.violation(
+                        "f|reused parser|tokens_reached differs from the tree's token high-water mark",
+                        format!("call {i} ({entry}) on a reused apollo_compiler Parser: tokens_reached = {c_tok}, apollo_parser token_limit().high for this text = {tok_high}"),
+                        case.clone(),
+                    );
+                }
+            }
+            // a session is informative when a later call has smaller marks than an earlier one
+            if marks.windows(2).any(|w| w[1].0 < w[0].0) && marks.windows(2).any(|w| w[1].1 < w[0].1) {
+                ctx.count("clause_f_sessions_with_decreasing_marks", 1);
+                if !ctx.has_class("reused_parser", "a later call has smaller marks than an earlier one") {
+                    ctx.class("reused_parser", "a later call has smaller marks than an earlier one");
+                }
+            }
+            ctx.nontrivial(&format!("session|{:?}|{:?}|{:?}", marks, n, r));
+            if !ctx.has_class("source", source) {
+                ctx.class("source", source);
+            }
+        }
+    }
+}
+
 /// Token limits to try for an input with `big_n` unlimited items.
 fn token_limits(ctx: &mut Ctx, big_n: usize, all_up_to: usize, samples: usize) -> Vec<usize> {
     if big_n <= all_up_to {
@@ -648,6 +729,23 @@ pub fn run(ctx: &mut Ctx) {
         };
         check_nested_doc(ctx, &doc, "nested_generator");
         ctx.sample(|| json!({"source": "nested_generator", "depth": doc.depth, "text": clip(&doc.text, 200)}));
+        if i % 4 == 0 {
+            // reused compiler parser over documents of different depth and length
+            let k = rng.range(2, 5);
+            let mut texts = vec![doc.text.clone()];
+            for _ in 0..k {
+                let d2 = rng.range(0, 9);
+                let mut g = NestGen::new(&mut rng);
+                g.busy = 1;
+                texts.push(g.document_exact(d2).text);
+            }
+            if rng.bool() {
+                texts.reverse();
+            }
+            let n = if rng.below(3) == 0 { Some(rng.range(1, 60)) } else { None };
+            let r = if rng.below(3) == 0 { Some(rng.range(0, 8)) } else { None };
+            check_session(ctx, &texts, n, r, "session_nested");
+        }
     }
     ctx.count("nested_documents_generated", i);
 
@@ -673,10 +771,28 @@ pub fn run(ctx: &mut Ctx) {
             continue;
         }
         check_arbitrary(ctx, &t, kind, 4);
+        if n % 8 == 0 {
+            let mut texts = vec![t.clone()];
+            for _ in 0..rng.range(1, 4) {
+                let (_, t2) = src.random(&mut rng);
+                if t2.len() <= 4000 {
+                    texts.push(t2);
+                }
+            }
+            let nl = if rng.bool() { Some(rng.range(0, 40)) } else { None };
+            let rl = if rng.bool() { Some(rng.range(0, 6)) } else { None };
+            check_session(ctx, &texts, nl, rl, "session_random");
+        }
     }
 }
 
 pub fn replay(ctx: &mut Ctx, case: &Value) {
+    let get0 = |k: &str| case.get(k).and_then(|x| x.as_u64()).map(|x| x as usize);
+    if let Some(sess) = case.get("session").and_then(|s| s.as_array()) {
+        let texts: Vec<String> = sess.iter().filter_map(|t| t.as_str().map(|t| t.to_string())).collect();
+        check_session(ctx, &texts, get0("token_limit"), get0("recursion_limit"), "replay");
+        return;
+    }
     let Some(t) = case.get("text").and_then(|t| t.as_str()) else {
         return;
     };
